@@ -690,7 +690,7 @@ var ruleWriteOnce = &core.Rule{ID: "R06.3", Min: 6,
 
 // R06.4 no in-place append on shared slices
 var ruleSharedAppend = &core.Rule{ID: "R06.4", Min: 1,
-	Doc: "no append whose first operand may be a shared slice (field of a tree node, caller-owned alias slice) outside the write lock: append may write into spare capacity of the shared backing array",
+	Doc: "no append whose first operand may be a shared slice (field of a tree node, caller-owned alias slice) outside the write lock: append may write into spare capacity of the shared backing array; origins of parameters and slice results are followed through functions that are only called statically",
 	Run: func(c *core.Ctx, s *core.Sink) {
 		m := getConc(c)
 		_, _, regions := m.lockset(c)
